@@ -77,7 +77,7 @@ static std::string human(const Op & o) {
 
 static const char * FMTS[] = {"%s", "%d-%s", "%5.2f|%c", "%%", "%s%s"};
 static std::string fmt_model(const Op & o) {
-	char buf[8192];
+	char buf[20000];
 	switch (o.fmt) {
 	case 0: snprintf(buf, sizeof buf, FMTS[0], o.b.c_str()); break;
 	case 1: snprintf(buf, sizeof buf, FMTS[1], o.iarg, o.b.c_str()); break;
@@ -269,6 +269,15 @@ static Gen<std::string> arrayPayload() {
 		{2, gen::resize(8, gen::container<std::string>(gen::element<char>('a', 'b', '\0', '\0', 'c', '\xff')))}});
 }
 
+// the string argument of the formatted-text operations: short texts, and lengths around every power of two (formatting goes through a
+// temporary buffer whose size nobody outside knows)
+static Gen<std::string> pfText() {
+	return gen::weightedOneOf<std::string>({
+		{5, smallText()},
+		{3, gen::map(gen::pair(gen::element<size_t>(16, 32, 64, 128, 256, 512, 1024, 2048, 4096), gen::element<int>(-2, -1, 0, 0, 1, 2)),
+		             [](const std::pair<size_t, int> & p) { size_t n = p.first + p.second; std::string t(n, 'p'); for (size_t i = 0; i < n; i += 5) t[i] = 'a' + (i % 7); return t; })}});
+}
+
 struct OpCmd : state::Command<Model, Sut> {
 	Op op;
 	explicit OpCmd(const Model & m) {
@@ -280,7 +289,7 @@ struct OpCmd : state::Command<Model, Sut> {
 		case NEW: case APPEND: case PREPEND: op.a = *payload(); break;
 		case APPEND_C: op.carg = *gen::element<char>('a', 'z', 0, '\n', '\xff'); break;
 		case APPEND_ARR: op.a = *arrayPayload(); op.len = *gen::oneOf(gen::just(NPOS), gen::just(op.a.size()), gen::resize(60, gen::inRange<size_t>(0, op.a.size() + 1))); break;
-		case APPEND_PF: case INSERT_PF: op.fmt = *gen::resize(60, gen::inRange(0, 5)); op.b = *smallText(); op.iarg = *gen::arbitrary<int>(); op.farg = (*gen::resize(60, gen::inRange(-100000, 100000))) / 37.0; op.carg = *gen::element<char>('a', 'Z', '%'); if (op.kind == INSERT_PF) op.pos = *posGen(len); break;
+		case APPEND_PF: case INSERT_PF: op.fmt = *gen::resize(60, gen::inRange(0, 5)); op.b = *pfText(); op.iarg = *gen::arbitrary<int>(); op.farg = (*gen::resize(60, gen::inRange(-100000, 100000))) / 37.0; op.carg = *gen::element<char>('a', 'Z', '%'); if (op.kind == INSERT_PF) op.pos = *posGen(len); break;
 		case INSERT: op.a = *payload(); op.pos = *posGen(len); break;
 		case INSERT_C: op.carg = *gen::element<char>('a', 'z', 0, '\n'); op.pos = *posGen(len); break;
 		case INSERT_ARR: op.a = *arrayPayload(); op.pos = *posGen(len); op.len = *gen::oneOf(gen::just(NPOS), gen::just(op.a.size()), gen::resize(60, gen::inRange<size_t>(0, op.a.size() + 1))); break;
